@@ -172,3 +172,11 @@ def c02_generate_commits_every_atr(ctx, v):
     obl_c13.c13_generate_commits_every_atr(ctx, v)
 
 
+
+
+def c02_block_double_spend(ctx, v):
+    """two transactions of one block spending the same output would pay out its value twice: the
+    block-level scan must record every value-carrying input for the whole block and reject a
+    re-spend (same obligation as C01 c01_block_double_spend)."""
+    from . import obl_c01
+    obl_c01.c01_block_double_spend(ctx, v)
